@@ -46,7 +46,7 @@ Fixpoint body_eqb (a b : list wstmt) : bool :=
 Definition canon : list wstmt := [WImportThen [WPlan true]; WIfNoPlan [WPlan false; WExport]].
 
 Definition prep_ok (pr : prep) : bool :=
-  match pr_path pr with PFSPathAppend => true | PPlainString => false end && body_eqb (strip (pr_body pr)) canon.
+  match pr_path pr with PFSPathAppend | PFSPathFull => true | PPlainString => false end && body_eqb (strip (pr_body pr)) canon.
 
 (** [mk]: FSPath::append creates the directory of the file *)
 Definition wis_ok (mk : bool) (tb : list prep) : bool := mk && forallb prep_ok tb.
@@ -152,7 +152,11 @@ Lemma prepare_canon k pr tb (p : pst) : find (handles k) tb = Some pr -> prep_ok
   (p_fs q, p_mem q, p_planned q, p_written q) = prepare_spec k p.
 Proof.
   intros F O. unfold prepare. rewrite F. unfold prep_ok in O. apply andb_true_iff in O. destruct O as [O1 O2].
-  destruct (pr_path pr) eqn:PF; [|discriminate O1]. apply body_eqb_eq in O2.
+  apply body_eqb_eq in O2.
+  assert (PE : path_effect true (pr_path pr) (mkpst (p_fs p) (p_mem p) false (p_planned p) (p_logged p) (p_written p)) =
+               path_effect true PFSPathAppend (mkpst (p_fs p) (p_mem p) false (p_planned p) (p_logged p) (p_written p)))
+    by (destruct (pr_path pr); [reflexivity | reflexivity | discriminate O1]).
+  rewrite PE. clear PE.
   set (p0 := path_effect true PFSPathAppend (mkpst (p_fs p) (p_mem p) false (p_planned p) (p_logged p) (p_written p))).
   pose proof (exec_body_strip k (pr_body pr) p0 p0 eq_refl) as C. rewrite O2 in C.
   set (q := fold_left (fun p s => exec_stmt k s p) (pr_body pr) p0) in *.
